@@ -432,7 +432,7 @@ OkPlan(fam, method, mode, kd, n, sized, gz, nw, sub) ==
         nbody == IF fam \in {"H", "W"} /\ method = "HEAD" THEN 0
                  ELSE IF nw > Len(head) THEN nw - Len(head) ELSE 1
         \* WapSubprocess: wap.py converts text documents through an in-memory file, which has no
-        \* fileno() for the subprocess of ExecHandler / CompressedFileHandler: UnsupportedOperation
+        \* fileno() for the subprocess of ExecHandler: UnsupportedOperation
         cont == IF fam = "W" /\ sub /\ nbody > 0 THEN <<RaiseC>>
                 ELSE IF fam = "GP" /\ mode = "info" THEN Repeat(Blob(NominalSize), nbody) ELSE Repeat(body, nbody)
         bodyregion == IF fam \in {"GEM", "S"} THEN "outside" ELSE "try"
@@ -574,7 +574,7 @@ Entry ==                                        \* getentry(), prepare(): still 
             /\ UNCHANGED <<kind, todo, fds, fs>>
        ELSE /\ kind' = IF mode = "info" THEN "info" ELSE e.kind
             /\ todo' = OkPlan(fam, m, mode, e.kind, e.n, hname \in SizedHandlers, hname = "CompressedFileHandler", rq.nw,
-                              hname \in {"ExecHandler", "CompressedFileHandler"} /\ ~rq.tls)
+                              hname = "ExecHandler" /\ ~rq.tls)       \* (CompressedFileHandler captures since fe55d6b)
             /\ SetSite(IF fam = "GP" /\ mode # "info" /\ hname = "CompressedFileHandler" THEN "GzSize"
                        \* the listing (fresh or cached) shows an entry the pristine directory does not have
                        ELSE IF hname \in {"UMNDirHandler", "DirHandler"} /\ mode # "info"
